@@ -2,12 +2,17 @@ import re
 
 
 def _rw_cq_handler(src):
-    """Fault point at the top of executeAggregation (aggregation fails before touching DuckDB)."""
+    """Fault points: top of executeAggregation (fails before touching DuckDB) and the destination write."""
     pat = re.compile(r"(func \(h \*ContinuousQueryHandler\) executeAggregation\([^)]*\) \(int64, error\) \{\n)")
     if len(pat.findall(src)) != 1:
         raise Exception("executeAggregation signature not found exactly once")
-    return pat.sub(lambda m: m.group(1) +
-                   "\tif VerifAggFault != nil {\n\t\tif verr := VerifAggFault(cq.Name); verr != nil {\n\t\t\treturn 0, verr\n\t\t}\n\t}\n", src)
+    src = pat.sub(lambda m: m.group(1) +
+                  "\tif VerifAggFault != nil {\n\t\tif verr := VerifAggFault(cq.Name); verr != nil {\n\t\t\treturn 0, verr\n\t\t}\n\t}\n", src)
+    # fault point / ground-truth counter around the destination write (same call text, exactly once)
+    call = "h.arrowBuffer.WriteColumnarRecord(ctx, cq.Database, record)"
+    if src.count(call) != 1:
+        raise Exception("`%s` not found exactly once in continuous_query.go" % call)
+    return src.replace(call, "verifWrite(h.arrowBuffer, ctx, cq.Database, record)")
 
 
 def _rw_cq_scheduler(src):
@@ -27,7 +32,8 @@ SPEC = dict(
         "handleUpdate / restart (state: persisted last_processed_time at RFC3339 second resolution, is_active; clock in "
         "unbounded integer nanoseconds), for ALL op histories: C29_chain (every window selected from the cursor starts "
         "exactly at the end of the last recorded execution), C29_fail_no_advance (aggregation failure, record failure, "
-        "rejected/dry-run/inactive executions, updates and restarts leave the cursor unchanged), C29_label in full (rows of "
+        "rejected destination write, rejected/dry-run/inactive executions, updates and restarts leave the cursor unchanged), "
+        "C29_advance_only_if_written (the cursor moves only when the aggregated rows were accepted by the buffer), C29_label in full (rows of "
         "EVERY execution carry exactly the whole-second start of the window that was aggregated and reported — the "
         "sub-second label defect this check found was fixed in /repo 388c9ab), and — under the explicit decidable carve-out "
         "`tameOp` (no manual execution with an explicit start_time/end_time, no record failure after rows were written) — "
@@ -36,7 +42,8 @@ SPEC = dict(
         "C29_once_witness (manual backfill rewinds the cursor), C29_contiguous_witness (manual range ahead of the cursor "
         "leaves a gap), C29_rerun_witness (rows written but record failed => window re-run) are 3-4 step histories replayed "
         "on the real code. C29_source_shape ties the model's step order to facts regenerated from the source (aggregate, "
-        "then record+advance in one transaction; which paths record; which value is stored; the label expression). "
+        "then record+advance in one transaction; which paths record; which value is stored; the label expression; the write "
+        "error is returned; startTime/endTime are assigned only from cursor, request or clock — no clamp). "
         "The model is diffed op-by-op against the real handler + scheduler (SQLite + DuckDB + ArrowBuffer + local "
         "parquet) under a virtual clock; monitors check overlap/gap/label directly on the windows the real code executed."
     ),
@@ -75,6 +82,8 @@ SPEC = dict(
         "scheduled ticks are delivered by the harness to the real runJob loop through a replaced ticker channel "
         "(SPEC.rewrite of time.NewTicker in startJob); tick timing itself is not part of the property",
         "aggregation failure is injected by a fault point at the top of executeAggregation (SPEC.rewrite) and, "
-        "independently, by updating the query to SQL that fails in DuckDB",
+        "independently, by updating the query to SQL that fails in DuckDB; a rejected destination write is injected by "
+        "a wrapper around the WriteColumnarRecord call (SPEC.rewrite) and, independently, by a query whose `time` "
+        "output is a non-RFC3339 string, which the real ArrowBuffer rejects",
     ],
 )
